@@ -971,8 +971,6 @@ class XsdList(XsdSimpleType):
             return True
         elif other.name in self._special_types:
             return derivation != 'extension'
-        elif self.item_type is other:
-            return True
         else:
             return False
 
